@@ -46,6 +46,15 @@ type absObj struct {
 	C     []string   `json:"c"`
 	View  []viewOp   `json:"view"`
 	Cfg   *docNode   `json:"cfg,omitempty"`
+	// stored zeros created before the object is written (Serialization!SparseHistory)
+	Hist *histSpec `json:"hist,omitempty"`
+	// long-line class (Serialization!WideObjects): "64K", "1M", "4M"
+	Wide string `json:"wide,omitempty"`
+}
+
+type histSpec struct {
+	How string `json:"how"`
+	Pos int    `json:"pos"`
 }
 
 type absEl struct {
@@ -76,6 +85,9 @@ type fault struct {
 	Line  int    `json:"line"`
 	Tok   int    `json:"tok"`
 	Depth int    `json:"depth"`
+	// EntryRange: entry at the bounds of the integer element type
+	Val      string `json:"val"`
+	Notation string `json:"notation"`
 }
 
 // rcvSpec: pre-state of the object the document is read into (Serialization!Rcv)
@@ -148,6 +160,29 @@ func buildVector(et *etype, o *absObj) (Vector, error) {
 			return nil, err
 		}
 	}
+	if o.Hist != nil {
+		// a stored zero at position Pos, created the way the case says; nothing iterates afterwards
+		one, _ := atomValue(et, "one")
+		zero, _ := atomValue(et, "zero")
+		switch o.Hist.How {
+		case "overwrite":
+			s := p.At(o.Hist.Pos)
+			setVal(et, s, one)
+			setVal(et, s, zero)
+		case "touch":
+			_ = p.At(o.Hist.Pos)
+		case "reset":
+			setVal(et, p.At(o.Hist.Pos), one)
+			p.At(o.Hist.Pos).Reset()
+		case "cancel":
+			setVal(et, p.At(o.Hist.Pos), one)
+			w := NullSparseVector(et.ST, o.N)
+			setVal(et, w.At(o.Hist.Pos), one)
+			p.VsubV(p, w)
+		default:
+			return nil, fmt.Errorf("unknown history %s", o.Hist.How)
+		}
+	}
 	for _, w := range o.View {
 		p = p.Slice(w.I, w.J)
 	}
@@ -172,6 +207,29 @@ func buildMatrix(et *etype, o *absObj) (Matrix, error) {
 	if o.Dv == "var" {
 		if err := p.(MagicMatrix).Variables(1); err != nil {
 			return nil, err
+		}
+	}
+	if o.Hist != nil {
+		i, j := o.Hist.Pos/o.Cols, o.Hist.Pos%o.Cols
+		one, _ := atomValue(et, "one")
+		zero, _ := atomValue(et, "zero")
+		switch o.Hist.How {
+		case "overwrite":
+			s := p.At(i, j)
+			setVal(et, s, one)
+			setVal(et, s, zero)
+		case "touch":
+			_ = p.At(i, j)
+		case "reset":
+			setVal(et, p.At(i, j), one)
+			p.At(i, j).Reset()
+		case "cancel":
+			setVal(et, p.At(i, j), one)
+			w := NullSparseMatrix(et.ST, o.Rows, o.Cols)
+			setVal(et, w.At(i, j), one)
+			p.MsubM(p, w)
+		default:
+			return nil, fmt.Errorf("unknown history %s", o.Hist.How)
 		}
 	}
 	for _, w := range o.View {
@@ -366,7 +424,9 @@ type observation struct {
 	Hess   [][]uint64
 }
 
-const probeCap = 4096
+// probeCap bounds how many elements of a decoded object are read (damaged
+// documents may state huge dimensions); round trips of wide objects raise it
+var probeCap = 4096
 
 func elemDeriv(s ConstScalar) (int, int) {
 	n := s.GetN()
